@@ -195,10 +195,14 @@ func (r *loggingRepo) GetAll(c context.Context) ([]*domain.Endpoint, error) {
 	return l, err
 }
 func (r *loggingRepo) GetRoutable(c context.Context) ([]*domain.Endpoint, error) {
-	return r.inner.GetRoutable(c)
+	l, err := r.inner.GetRoutable(c)
+	sort.Slice(l, func(i, j int) bool { return l[i].Name < l[j].Name })
+	return l, err
 }
 func (r *loggingRepo) GetHealthy(c context.Context) ([]*domain.Endpoint, error) {
-	return r.inner.GetHealthy(c)
+	l, err := r.inner.GetHealthy(c)
+	sort.Slice(l, func(i, j int) bool { return l[i].Name < l[j].Name })
+	return l, err
 }
 func (r *loggingRepo) Exists(c context.Context, u *url.URL) bool { return r.inner.Exists(c, u) }
 func (r *loggingRepo) UpdateEndpoint(c context.Context, e *domain.Endpoint) error {
